@@ -129,8 +129,17 @@ def check_frames(ctx, rep, name, direction, frames):
     q, meta = [], []
     for uid, frame, other in frames:
         for kind, bad in corruptions(ctx.rng, frame, ctx.quick):
-            ctxt = ctx.rng.choice(['alone', 'before', 'after'])
-            if ctxt == 'alone':
+            ctxt = ctx.rng.choice(['alone', 'before', 'after', 'after-foreign'])
+            if ctxt == 'after-foreign':
+                # a well-formed frame for ANOTHER unit, then the damaged one, in the same read
+                fu = uid % 246 + 1
+                foreign = framelib.real_build(name, direction, {'t': 'writeRegister', 'address': 2, 'value': 3} if direction == 'req'
+                                              else {'t': 'writeRegister', 'address': 2, 'value': 3}, fu, 7, 0)
+                if isinstance(foreign, dict) or (name == 'binary' and any(b in (0x7B, 0x7D) for b in foreign[1:-1])):
+                    ctxt, chunks = 'alone', [bad]
+                else:
+                    chunks = [list(foreign) + bad]
+            elif ctxt == 'alone':
                 chunks = [bad]
             elif ctxt == 'before':
                 chunks = [other, bad]
